@@ -2,12 +2,13 @@ package mon
 
 import (
 	"fmt"
+	"math"
 	"os"
+	"regexp"
 	"sort"
 	"strings"
 
 	"github.com/NVIDIA/KAI-scheduler/pkg/scheduler/api/common_info"
-	"github.com/NVIDIA/KAI-scheduler/pkg/scheduler/api/pod_info"
 	"github.com/NVIDIA/KAI-scheduler/pkg/scheduler/api/pod_status"
 	"github.com/NVIDIA/KAI-scheduler/pkg/scheduler/framework"
 	rs "github.com/NVIDIA/KAI-scheduler/pkg/scheduler/plugins/proportion/resource_share"
@@ -35,23 +36,37 @@ type Monitor struct {
 	action          string
 	seenSig         map[string]bool
 	// statements
-	stmts       map[*framework.Statement]*stmtState
-	commitSeq   int
-	inCommit    *framework.Statement
-	maxFind     int
-	trace       []string
-	movedOnNode map[string]bool
-	initNode    map[common_info.PodID]string
-	initGroups  map[common_info.PodID][]string
+	stmts           map[*framework.Statement]*stmtState
+	commitSeq       int
+	activity        int
+	lastOpsText     string
+	lastSharedRenom bool
+	inCommit        *framework.Statement
+	maxFind         int
+	trace           []string
+	movedOnNode     map[string]bool
+	lastStatus      map[common_info.PodID]pod_status.PodStatus
+	seenNodes       map[common_info.PodID]map[string]bool
+	everReleasing   map[common_info.PodID]bool
+	lastKind        map[common_info.PodID]string
+	dupHandler      bool
+	initNode        map[common_info.PodID]string
+	initGroups      map[common_info.PodID][]string
 }
 
 type stmtState struct {
-	d0        []string
-	cps       map[int][]string
-	commitSeq int
-	evStart   int
-	expect    map[string]string // pod uid -> expected event kind sequence key
-	ops       int
+	d0          []string
+	cps         map[int][]string
+	commitSeq   int
+	evStart     int
+	expect      map[string]string // pod uid -> expected event kind sequence key
+	ops         int
+	lastOps     string      // op log when the last discard/rollback began
+	sharedRenom bool        // the op log evicted and nominated the same shared-GPU pod
+	own         int         // lifecycle events of this statement since d0
+	actAtD0     int         // global activity counter when d0 was taken
+	cpAct       map[int]int // checkpoint -> (global activity, own) when taken
+	cpOwn       map[int]int
 }
 
 // Cur is the monitor used by the registered plugin and the statement observer.
@@ -148,23 +163,46 @@ func (m *Monitor) onEvent(kind string, e *framework.Event) {
 	if e != nil && e.Task != nil {
 		// remember where an evicted pod's releasing copy lives (see Ghost)
 		t := e.Task
+		prev, hadPrev := m.lastStatus[t.UID]
+		if hadPrev && prev == t.Status && m.lastKind[t.UID] == kind {
+			// the same handler fired twice in a row for one pod with the same status (e.g. pipelined twice):
+			// queue usage is added or subtracted twice
+			m.dupHandler = true
+			m.Stats["duplicate_handler_calls"]++
+		}
+		m.lastKind[t.UID] = kind
+		if m.seenNodes[t.UID] == nil {
+			m.seenNodes[t.UID] = map[string]bool{}
+		}
+		if t.NodeName != "" {
+			m.seenNodes[t.UID][t.NodeName] = true
+		}
 		switch {
 		case kind == "deallocate-event" && t.Status == pod_status.Releasing:
-			m.initNode[t.UID] = t.NodeName
-			m.initGroups[t.UID] = append([]string(nil), t.GPUGroups...)
+			m.everReleasing[t.UID] = true
+			if !(hadPrev && prev == pod_status.Pipelined) {
+				// a (virtual) eviction of a placed pod: this is where its releasing copy lives
+				m.initNode[t.UID] = t.NodeName
+				m.initGroups[t.UID] = append([]string(nil), t.GPUGroups...)
+			}
 		case kind == "allocate-event" && t.Status == pod_status.Pipelined:
-			if n, ok := m.initNode[t.UID]; ok && n == t.NodeName && t.IsSharedGPUAllocation() {
-				// a shared-GPU pod evicted from this node is nominated back onto the same node
+			if m.everReleasing[t.UID] && t.IsSharedGPUAllocation() {
+				// a shared-GPU pod that was (virtually) evicted - from a node or from an earlier nomination - is
+				// nominated again: releasing and pipelined copies of the same pod are charged side by side and the
+				// scheduler keeps only one of them in NodeInfo.PodInfos. Every node the pod touched is marked.
 				if m.movedOnNode == nil {
 					m.movedOnNode = map[string]bool{}
 				}
-				m.movedOnNode[t.NodeName] = true
-				m.Stats["same_node_shared_gpu_renominations"]++
+				for n := range m.seenNodes[t.UID] {
+					m.movedOnNode[n] = true
+				}
+				m.Stats["shared_gpu_renominations_after_eviction"]++
 			}
 		case kind == "allocate-event" && t.Status != pod_status.Pipelined:
 			delete(m.initNode, t.UID) // un-evicted or freshly allocated: no releasing copy
 			delete(m.initGroups, t.UID)
 		}
+		m.lastStatus[t.UID] = t.Status
 		m.trace = append(m.trace, fmt.Sprintf("%s(%s,%v,node=%s,groups=%v)", kind[:3], e.Task.Name, e.Task.Status, e.Task.NodeName, e.Task.GPUGroups))
 		if os.Getenv("VERIF_TRACE") != "" {
 			fmt.Fprintf(os.Stderr, "TRACE [%s] %s\n", m.action, m.trace[len(m.trace)-1])
@@ -182,6 +220,11 @@ func (m *Monitor) onEvent(kind string, e *framework.Event) {
 func (m *Monitor) recordInitial() {
 	m.initNode = map[common_info.PodID]string{}
 	m.initGroups = map[common_info.PodID][]string{}
+	m.lastStatus = map[common_info.PodID]pod_status.PodStatus{}
+	m.seenNodes = map[common_info.PodID]map[string]bool{}
+	m.everReleasing = map[common_info.PodID]bool{}
+	m.lastKind = map[common_info.PodID]string{}
+	m.dupHandler = false
 }
 
 func sameSet(a, b []string) bool {
@@ -209,27 +252,7 @@ func (m *Monitor) ghosts() map[string][]Ghost {
 				continue
 			}
 			if n, ok := m.initNode[t.UID]; ok && n == name {
-				out[name] = append(out[name], Ghost{Task: t, Groups: m.initGroups[t.UID], Uncertain: sameSet(m.initGroups[t.UID], t.GPUGroups)})
-			}
-		}
-	}
-	// second form: the pipelined copy was already removed again (unpipeline during a rollback) and the pod is
-	// back to Releasing, but its releasing copy is still absent from PodInfos until unevict re-adds the pod
-	for _, job := range m.ssn.ClusterInfo.PodGroupInfos {
-		for uid, t := range job.GetAllPodsMap() {
-			if t.Status != pod_status.Releasing || !t.IsSharedGPUAllocation() {
-				continue
-			}
-			n, ok := m.initNode[uid]
-			if !ok || n != t.NodeName {
-				continue
-			}
-			ni, ok := m.ssn.ClusterInfo.Nodes[n]
-			if !ok {
-				continue
-			}
-			if _, onNode := ni.PodInfos[pod_info.PodKey(t.Pod)]; !onNode {
-				out[n] = append(out[n], Ghost{Task: t, Groups: m.initGroups[uid]})
+				out[name] = append(out[name], Ghost{Task: t, Groups: m.initGroups[t.UID], Uncertain: true})
 			}
 		}
 	}
@@ -244,7 +267,7 @@ func (m *Monitor) checkAll(where string) {
 	for _, s := range CheckNodes(m.ssn, m.ghosts(), m.Stats) {
 		oracle := "node-accounting"
 		if f := strings.Fields(s); len(f) > 1 && m.movedOnNode[f[1]] {
-			oracle = "node-accounting-after-same-node-shared-gpu-renomination"
+			oracle = "node-accounting-after-shared-gpu-renomination"
 		}
 		m.report("C14", oracle, s)
 	}
@@ -253,16 +276,29 @@ func (m *Monitor) checkAll(where string) {
 	}
 	// queue usage is updated by the proportion handler which runs before this one for the same event
 	for _, s := range CheckQueues(m.ssn, sched.CurrentProportion, m.Stats) {
-		m.report("C14", "queue-accounting", s)
+		if m.dupHandler {
+			m.report("C14", "queue-accounting-after-duplicate-handler-call", s)
+		} else if len(m.movedOnNode) > 0 {
+			m.report("C14", "queue-accounting-after-shared-gpu-renomination", s)
+		} else {
+			m.report("C14", "queue-accounting", s)
+		}
 	}
 }
 
 // ---------------------------------------------------------------- canonical dump (C13)
 
+func nz(x float64) float64 {
+	if math.Abs(x) < 5e-5 {
+		return 0
+	}
+	return x
+}
+
 func fmtRes(v vec) string {
 	ks := make([]string, 0, len(v))
 	for k, x := range v {
-		if x != 0 {
+		if math.Abs(x) >= 5e-5 {
 			ks = append(ks, fmt.Sprintf("%s=%.4f", k, x))
 		}
 	}
@@ -298,7 +334,13 @@ func Dump(ssn *framework.Session) []string {
 		for _, t := range ni.PodInfos {
 			gs := append([]string(nil), t.GPUGroups...)
 			sort.Strings(gs)
-			out = append(out, fmt.Sprintf("node %s holds %s/%s status=%v groups=%v", name, t.Namespace, t.Name, t.Status, gs))
+			st := t.Status.String()
+			if t.Status == pod_status.Binding {
+				// the node's copy of a pod bound earlier in the cycle keeps status Allocated until the next update of
+				// that copy; both are charged identically
+				st = "Allocated"
+			}
+			out = append(out, fmt.Sprintf("node %s holds %s/%s status=%v groups=%v", name, t.Namespace, t.Name, st, gs))
 		}
 	}
 	for id, job := range ssn.ClusterInfo.PodGroupInfos {
@@ -325,7 +367,7 @@ func Dump(ssn *framework.Session) []string {
 			var parts []string
 			for _, r := range rs.AllResources {
 				sh := qa.ResourceShare(r)
-				parts = append(parts, fmt.Sprintf("%s:%.4f/%.4f/%.4f", r, sh.Allocated, sh.AllocatedNotPreemptible, sh.Request))
+				parts = append(parts, fmt.Sprintf("%s:%.4f/%.4f/%.4f", r, nz(sh.Allocated), nz(sh.AllocatedNotPreemptible), nz(sh.Request)))
 			}
 			out = append(out, fmt.Sprintf("queue %s alloc/np/request %s", id, strings.Join(parts, " ")))
 		}
@@ -356,25 +398,36 @@ func diffDump(a, b []string) []string {
 	return out
 }
 
+// diffSig condenses a dump difference into a signature: which kinds of lines differ and, for the two
+// recurring special shapes, what exactly differs.
 func diffSig(d []string) string {
 	kinds := map[string]bool{}
+	minus, plus := map[string]string{}, map[string]string{}
 	for _, l := range d {
 		f := strings.Fields(l)
-		if len(f) >= 4 {
-			k := f[1]
-			switch {
-			case f[1] == "node" && strings.HasPrefix(f[3], "holds"):
-				k = "node-pods"
-			case f[1] == "node" && strings.HasPrefix(f[3], "shared"):
-				k = "node-shared-gpu"
-			case f[1] == "node":
-				k = "node-resources"
-			case f[1] == "job":
-				k = "job"
-			case f[1] == "queue":
-				k = "queue"
-			}
-			kinds[k] = true
+		if len(f) < 4 {
+			continue
+		}
+		k := f[1]
+		switch {
+		case f[1] == "node" && strings.HasPrefix(f[3], "holds"):
+			k = "node-pods"
+		case f[1] == "node" && strings.HasPrefix(f[3], "shared"):
+			k = "node-shared-gpu"
+		case f[1] == "node" && strings.HasPrefix(f[3], "releasingGroups"):
+			k = "node-shared-gpu"
+		case f[1] == "node":
+			k = "node-resources"
+		}
+		kinds[k] = true
+		key := f[1] + " " + f[2]
+		if k == "job" && len(f) > 4 && f[3] == "pod" {
+			key += " " + f[4]
+		}
+		if l[0] == '-' {
+			minus[k+"|"+key] = l[2:]
+		} else {
+			plus[k+"|"+key] = l[2:]
 		}
 	}
 	ks := make([]string, 0, len(kinds))
@@ -382,8 +435,41 @@ func diffSig(d []string) string {
 		ks = append(ks, k)
 	}
 	sort.Strings(ks)
-	return strings.Join(ks, "+")
+	sig := strings.Join(ks, "+")
+	if sig == "node-resources" {
+		// do only whole-GPU counters differ?
+		onlyGPU := true
+		for k, a := range minus {
+			b, ok := plus[k]
+			if !ok || stripGPU(a) != stripGPU(b) {
+				onlyGPU = false
+			}
+		}
+		if onlyGPU && len(minus) == len(plus) {
+			sig += ":only-whole-gpu-counters"
+		}
+	}
+	if sig == "job" {
+		// do only the GPU groups of (virtually) evicted pods differ?
+		only := true
+		for k, a := range minus {
+			b, ok := plus[k]
+			if !ok || !strings.Contains(a, "status=Releasing") || stripGroups(a) != stripGroups(b) {
+				only = false
+			}
+		}
+		if only && len(minus) == len(plus) {
+			sig += ":only-gpu-groups-of-evicted-pod"
+		}
+	}
+	return sig
 }
+
+var gpuRe = regexp.MustCompile(`gpu=-?[0-9.]+,?`)
+var groupsRe = regexp.MustCompile(`groups=\[[^\]]*\]`)
+
+func stripGPU(s string) string    { return strings.ReplaceAll(gpuRe.ReplaceAllString(s, ""), ",}", "}") }
+func stripGroups(s string) string { return groupsRe.ReplaceAllString(s, "groups=[]") }
 
 func (m *Monitor) liveOthers(s *framework.Statement) bool {
 	for o, st := range m.stmts {
@@ -396,29 +482,39 @@ func (m *Monitor) liveOthers(s *framework.Statement) bool {
 
 func (m *Monitor) onStatement(s *framework.Statement, phase string, cp int) {
 	st, known := m.stmts[s]
+	// foreign activity: lifecycle events of OTHER statements between this statement's reference dump and now
+	m.activity++
+	if os.Getenv("VERIF_TRACE") != "" {
+		fmt.Fprintf(os.Stderr, "STMT [%s] %p %s cp=%d known=%v ops=%d\n", m.action, s, phase, cp, known, len(s.VerifOps()))
+	}
+	if known {
+		st.own++
+	}
 	switch phase {
 	case "op-begin":
 		if !known || (cp == 0 && len(s.VerifOps()) == 0) {
 			// first operation of this statement (or of a statement object reused after clearOperations)
-			m.stmts[s] = &stmtState{d0: Dump(m.ssn), cps: map[int][]string{}, commitSeq: m.commitSeq}
+			m.stmts[s] = &stmtState{d0: Dump(m.ssn), cps: map[int][]string{}, commitSeq: m.commitSeq, actAtD0: m.activity, own: 1, cpAct: map[int]int{}, cpOwn: map[int]int{}}
 			m.Stats["statements"]++
 			st = m.stmts[s]
 		}
 		st.ops++
 	case "checkpoint":
 		if !known {
-			m.stmts[s] = &stmtState{d0: Dump(m.ssn), cps: map[int][]string{}, commitSeq: m.commitSeq}
+			m.stmts[s] = &stmtState{d0: Dump(m.ssn), cps: map[int][]string{}, commitSeq: m.commitSeq, actAtD0: m.activity, own: 1, cpAct: map[int]int{}, cpOwn: map[int]int{}}
 			st = m.stmts[s]
 			m.Stats["statements"]++
 		}
 		st.cps[cp] = Dump(m.ssn)
+		st.cpAct[cp], st.cpOwn[cp] = m.activity, st.own
 		m.Stats["checkpoints"]++
 	case "rollback-end":
 		if !known {
 			return
 		}
 		want, ok := st.cps[cp]
-		if !ok || st.commitSeq != m.commitSeq || m.liveOthers(s) {
+		foreign := (m.activity - st.cpAct[cp]) - (st.own - st.cpOwn[cp])
+		if !ok || st.commitSeq != m.commitSeq || m.liveOthers(s) || foreign > 0 {
 			m.Stats["rollbacks_not_judged"]++
 			return
 		}
@@ -432,19 +528,25 @@ func (m *Monitor) onStatement(s *framework.Statement, phase string, cp int) {
 				delete(st.cps, k)
 			}
 		}
-	case "discard-begin":
+	case "discard-begin", "rollback-begin":
 		if known {
-			m.Stats["op_log_len_"+bucket(len(s.VerifOps()))]++
+			if phase == "discard-begin" {
+				m.Stats["op_log_len_"+bucket(len(s.VerifOps()))]++
+			}
+			st.lastOps = opLog(s.VerifOps())
+			st.sharedRenom = hasSharedRenomination(s.VerifOps())
 		}
 	case "discard-end":
 		if !known {
 			return
 		}
 		delete(m.stmts, s)
+		m.lastOpsText = st.lastOps
+		m.lastSharedRenom = st.sharedRenom
 		if st.ops == 0 {
 			return
 		}
-		if st.commitSeq != m.commitSeq || m.liveOthers(s) {
+		if st.commitSeq != m.commitSeq || m.liveOthers(s) || (m.activity-st.actAtD0)-(st.own-1) > 0 {
 			m.Stats["discards_not_judged"]++
 			return
 		}
@@ -490,29 +592,74 @@ func bucket(n int) string {
 
 func (m *Monitor) reportDiff(oracle string, d []string, s *framework.Statement) {
 	msg := fmt.Sprintf("%d lines differ (%s); first: %s", len(d), diffSig(d), strings.Join(head(d, 8), " || "))
-	ops := s.VerifOps()
-	var sb strings.Builder
-	for i, o := range ops {
-		if i >= 24 {
-			sb.WriteString(" ...")
-			break
-		}
-		name := ""
-		if o.Task != nil {
-			name = o.Task.Name
-		}
-		fmt.Fprintf(&sb, " %d:%s(%s->%s)", i, o.Kind, name, o.Node)
-		if o.Kind == "undo" {
-			fmt.Fprintf(&sb, "#%d", o.Target)
-		}
+	opsText := opLog(s.VerifOps())
+	if st, ok := m.stmts[s]; ok && st.lastOps != "" {
+		opsText = st.lastOps
+	} else if m.lastOpsText != "" {
+		opsText = m.lastOpsText
 	}
+	class := "plain"
+	if st, ok := m.stmts[s]; ok {
+		if st.sharedRenom {
+			class = "shared-gpu-renomination"
+		}
+	} else if m.lastSharedRenom {
+		class = "shared-gpu-renomination"
+	}
+	var sb strings.Builder
+	sb.WriteString(opsText)
 	key := "C13" + oracle + diffSig(d) + m.action
 	if m.seenSig[key] || len(m.Findings) >= m.maxFind {
 		return
 	}
 	m.seenSig[key] = true
-	m.Findings = append(m.Findings, Finding{Prop: "C13", Oracle: oracle, Sig: oracle + ":" + diffSig(d) + ":" + actionClass(m.action),
-		Msg: fmt.Sprintf("[%s] %s; remaining op log:%s", m.action, msg, sb.String()), Action: m.action})
+	m.Findings = append(m.Findings, Finding{Prop: "C13", Oracle: oracle, Sig: oracle + ":" + class + ":" + diffSig(d) + ":" + actionClass(m.action),
+		Msg: fmt.Sprintf("[%s] %s; op log before the undo:%s", m.action, msg, sb.String()), Action: m.action})
+}
+
+// hasSharedRenomination: the statement evicted a shared-GPU pod and nominated the same pod again.
+func hasSharedRenomination(ops []framework.VerifOp) bool {
+	ev, pi := map[common_info.PodID]bool{}, map[common_info.PodID]bool{}
+	for _, o := range ops {
+		if o.Task == nil || !(o.Task.IsSharedGPUAllocation() || o.Task.IsSharedGPURequest()) {
+			continue
+		}
+		switch o.Kind {
+		case "evict":
+			ev[o.Task.UID] = true
+		case "pipeline":
+			pi[o.Task.UID] = true
+		}
+	}
+	for uid := range ev {
+		if pi[uid] {
+			return true
+		}
+	}
+	return false
+}
+
+func opLog(ops []framework.VerifOp) string {
+	var sb strings.Builder
+	for i, o := range ops {
+		if i >= 30 {
+			sb.WriteString(" ...")
+			break
+		}
+		name, status, shared := "", "", ""
+		if o.Task != nil {
+			name = o.Task.Name
+			status = o.Task.Status.String()
+			if o.Task.IsSharedGPUAllocation() || o.Task.IsSharedGPURequest() {
+				shared = ",shared-gpu"
+			}
+		}
+		fmt.Fprintf(&sb, " %d:%s(%s->%s,now=%s%s)", i, o.Kind, name, o.Node, status, shared)
+		if o.Kind == "undo" {
+			fmt.Fprintf(&sb, "#%d", o.Target)
+		}
+	}
+	return sb.String()
 }
 
 func head(s []string, n int) []string {
